@@ -22,7 +22,7 @@ def run(report):
     tier = report.tier
     args = ['--seed', str(report.seed)]
     if tier == 'quick':
-        args += ['--bases', '0,1,3,8,9,10,11', '--cap', '7000', '--random', '3000', '--versions', '3.9']
+        args += ['--bases', '0,1,3,5,8,9,10,11', '--cap', '7000', '--random', '3000', '--versions', '3.9']
     else:
         args += ['--bases', '0,1,2,3,4,5,6,7,8,9,10,11', '--cap', '40000', '--random', '30000', '--versions', '3.6,3.9,3.14']
     res = B.run_script('harness.c04_run', args)
